@@ -56,8 +56,9 @@ for _k in WS_KINDS:
     PIN_VALUES[_k] = ws_variant(PIN_VALUES["valid"], _k)
     NEWPIN_VALUES[_k] = ws_variant(NEWPIN_VALUES["valid"], _k)
 GETPASS_WS = [(k, ws_variant("Zz11gpZz", k)) for k in WS_KINDS]
-STDIN_MENU = ["yes\n", "YES\n", "no\n", "n\n", "maybe\n", "\n", "y\n"]
-STDIN_EXTRA = ["Yes\n", "NO\n", "\uff59\uff45\uff53\n"]     # thorough: mixed case, full-width "yes" (not a yes)
+# "yes" without newline = the last line of an input that ends there; "\r\n" = a DOS line ending
+STDIN_MENU = ["yes\n", "YES\n", "no\n", "n\n", "maybe\n", "\n", "y\n", "yes"]
+STDIN_EXTRA = ["yes\r\n", "Yes\n", "NO\n", "\uff59\uff45\uff53\n", "y" * 70000 + "\n", "ye"]   # thorough: case, full-width, very long line, cut-off last line
 MODES = ["bootloader", "signer", "ui-heartbeat", "0xff", "undefined", "status-error"]
 NAMES = {"btc": "m/44'/0'/0'/0/0", "rsk": "m/44'/137'/0'/0/0", "mst": "m/44'/137'/1'/0/0",
          "tbtc": "m/44'/1'/0'/0/0", "trsk": "m/44'/1'/1'/0/0", "tmst": "m/44'/1'/2'/0/0"}
@@ -176,46 +177,102 @@ class Operator:
         self.budget = budget
         self.lines = []          # (value, exchanges so far)
         self.passes = []         # (kind, value, exchanges so far)
+        self.passes_eof = []
+        self.stdin_eof = 0       # > 0: stdin is at end of file (number of reads answered with "")
+        self.getpass_eof = 0
         self.gone = None
 
     def snapshot(self):
-        return (tuple(v for v, _ in self.lines), tuple(k for k, _, _ in self.passes), self.gone)
+        return (tuple(v for v, _ in self.lines), tuple(k for k, _, _ in self.passes), self.gone,
+                bool(self.stdin_eof), self.getpass_eof)
 
     def state(self, what):
         self.ctx.state(("op", self.cfg["id"], self.dev.snapshot(), self.snapshot(), what))
 
+    # End of input is an answer like any other, at every position of a sequence: stdin then
+    # returns "" for ever (readline) and getpass raises EOFError for ever.  A tool that keeps
+    # asking costs EOF_STEPS reads and is then judged on what it sent (OperatorGone).
+    EOF_STEPS = 3
+
+    def _stdin_eof(self):
+        self.stdin_eof += 1
+        if self.stdin_eof > self.EOF_STEPS:
+            self.gone = "stdin-eof-loop"
+            raise opstub.OperatorGone("stdin at end of file, tool keeps reading")
+        self.lines.append(("<eof>", self.world.seq))
+        return ""
+
     # sys.stdin
     def readline(self, *a):
-        if len(self.lines) >= self.budget:
+        if self.stdin_eof:
+            return self._stdin_eof()
+        if len([1 for v, _ in self.lines if v != "<eof>"]) >= self.budget:
+            # the scripted answers are used up: the input ends, or the operator just sits there
+            self.state("stdin-end")
+            if self.ctx.choose(2, "stdin-end") == 0:
+                return self._stdin_eof()
             self.gone = "stdin"
             raise opstub.OperatorGone("stdin")
         if self.dev.onboard_performed:
             # "disconnect and re-connect the ledger ... press [Enter]"
             self.state("enter")
-            c = self.ctx.choose(3, "stdin-enter")
-            if c == 2:
+            c = self.ctx.choose(4, "stdin-enter")
+            if c == 3:
                 self.gone = "stdin"
                 raise opstub.OperatorGone("stdin")
+            if c == 2:
+                return self._stdin_eof()
             if c == 0:
                 self.dev.replug()
             v = "\n"
             self.lines.append(("<enter%s>" % ("" if c == 0 else "-no-replug"), self.world.seq))
             return v
         self.state("line")
-        c = self.ctx.choose(len(self.stdin_menu) + 1, "stdin")
-        if c == len(self.stdin_menu):
+        n = len(self.stdin_menu)
+        c = self.ctx.choose(n + 2, "stdin")
+        if c == n:
+            return self._stdin_eof()
+        if c == n + 1:
             self.gone = "stdin"
             raise opstub.OperatorGone("stdin")
         v = self.stdin_menu[c]
         self.lines.append((v, self.world.seq))
+        if not v.endswith("\n"):
+            self.stdin_eof = 1e-9        # a last line without newline: the input ends after it
         return v
 
     def isatty(self):
         return False
 
-    # admin.misc.getpass
-    def getpass(self, prompt=""):
+    def __iter__(self):
+        return self
+
+    def __next__(self):
+        v = self.readline()
+        if v == "":
+            raise StopIteration
+        return v
+
+    def read(self, *a):
+        return self.readline()
+
+    # getpass
+    def _getpass_eof(self):
+        self.getpass_eof += 1
+        if self.getpass_eof > self.EOF_STEPS:
+            self.gone = "getpass-eof-loop"
+            raise opstub.OperatorGone("getpass at end of file, tool keeps asking")
+        self.passes_eof.append(self.world.seq)
+        raise EOFError("EOF when reading a line")
+
+    def getpass(self, prompt="", stream=None):
+        if self.getpass_eof:
+            self._getpass_eof()
+        n = len(self.getpass_menu)
         if len(self.passes) >= self.budget:
+            self.state("getpass-end")
+            if self.ctx.choose(2, "getpass-end") == 0:
+                self._getpass_eof()
             self.gone = "getpass"
             raise opstub.OperatorGone("getpass")
         forced = self.cfg.get("first_getpass")
@@ -226,8 +283,10 @@ class Operator:
             c = forced
         else:
             self.state("getpass")
-            c = self.ctx.choose(len(self.getpass_menu) + 1, "getpass")
-        if c == len(self.getpass_menu):
+            c = self.ctx.choose(n + 2, "getpass")
+        if c == n:
+            self._getpass_eof()
+        if c == n + 1:
             self.gone = "getpass"
             raise opstub.OperatorGone("getpass")
         k, v = self.getpass_menu[c]
@@ -240,8 +299,10 @@ class C18(Check):
     level = "model_checking"
     rule = ("full lazy choice tree (no deviation bound) of device decisions {mode x6, onboarded x3, "
             "echo x2, unlock x2, new PIN x2, onboarding answer x2} and operator inputs {stdin lines "
-            "<= 3 over 7 answers + walk away, getpass answers <= 3 over 5 PIN kinds + walk away, "
-            "Enter with / without re-plugging} for every static configuration {onboard, unlock, "
+            "<= 3 over 8 answers (incl. a last line without newline; thorough: CRLF ending, very long line) + end of file "
+            "(then \"\" for ever; a tool that keeps reading is cut after 3 reads) + walk away, at every "
+            "position; getpass answers <= 3 over 5 PIN kinds + EOFError + walk away, "
+            "Enter with / without re-plugging / end of file} for every static configuration {onboard, unlock, "
             "changepin, pubkeys} x {Ledger, SGX} x --pin x10 x --newpin x10 (thorough x14) x --anypin x --nounlock x "
             "--noexec x output x 2 randomness streams (quick: second stream with --pin valid only) (flags a command does not read are enumerated "
             "in the thorough tier), driven through adm_ledger.main / adm_sgx.main.  A state is "
@@ -296,8 +357,9 @@ class C18(Check):
     def alphabets(self):
         return {"mode": self.modes, "onboarded": ["yes", "no", "error"], "echo": ["ok", "bad"],
                 "unlock": ["ok", "refused"], "newpin": ["ok", "refused"],
-                "onboarding": ["ok", "failure"], "stdin": self.stdin_menu + ["<walk away>"],
-                "getpass": [k for k, _ in self.getpass_menu] + ["<walk away>"],
+                "onboarding": ["ok", "failure"], "stdin": [v if len(v) < 40 else v[:8] + "...(%d)" % len(v) for v in self.stdin_menu] +
+                ["<end of file>", "<walk away>"],
+                "getpass": [k for k, _ in self.getpass_menu] + ["<EOFError>", "<walk away>"],
                 "pin_option": self.pin_kinds}
 
     def cases(self):
@@ -323,7 +385,7 @@ class C18(Check):
                                     # interactive onboarding (stdin x getpass sequences) has the largest trees: shard
                                     # its tree by the first getpass answer
                                     heavy = pin == "absent" and (plat == "sgx" or out)
-                                    for g in (range(len(self.getpass_menu) + 1) if heavy else (None,)):
+                                    for g in (range(len(self.getpass_menu) + 2) if heavy else (None,)):
                                         add(cmd="onboard", platform=plat, pin=pin, newpin="absent",
                                             anypin=anypin, nounlock=nu, noexec=ne, output=out,
                                             stream=stream, first_getpass=g)
